@@ -256,6 +256,9 @@ func (w *World) violate(rule, sig, format string, args ...interface{}) {
 		"config": w.Cfg,
 		"trace":  w.tail(60),
 	})
+	if w.Disk != nil && w.Disk.EnvLimitHit() {
+		w.Res.MarkEnvLimit()
+	}
 }
 
 // guard runs fn and converts a panic inside go-txfile into a violation.
@@ -268,6 +271,9 @@ func (w *World) guard(what string, fn func()) (panicked bool) {
 			w.Res.Violate(w.prop(), "panic", "panic:"+core.PanicSig(p, stack),
 				fmt.Sprintf("panic in %s: %v", what, p),
 				map[string]interface{}{"config": w.Cfg, "trace": w.tail(60), "stack": core.TrimStack(stack)})
+			if w.Disk != nil && w.Disk.EnvLimitHit() {
+				w.Res.MarkEnvLimit()
+			}
 		}
 	}()
 	fn()
